@@ -524,3 +524,8 @@ Proof.
   - cbn. apply burst_cons_a; auto. apply burst_cons_a; auto. apply burst_one; auto.
   - vm_compute. auto.
 Qed.
+
+(** Non-vacuity of [run_logins_ignores_headers]: the two spoofing histories
+    differ in their headers only. *)
+Example headers_premises_satisfiable : Forall2 same_but_headers spoof_fixed spoof_rotating.
+Proof. repeat constructor. Qed.
